@@ -44,6 +44,15 @@ struct Input
 {
     typedef Eigen::Matrix<S, Eigen::Dynamic, Eigen::Dynamic> Mat;
     Mat given;   // what the class receives (may contain garbage in the part it must ignore)
+    // how it is handed over: 0 = the plain matrix, 1 = a block in the middle of a larger matrix (Eigen::Ref with outer stride > rows)
+    int form = 0;
+    Mat parent;
+    Eigen::Ref<const Mat> arg() const
+    {
+        if (form == 0)
+            return given;
+        return parent.block(1, 2, given.rows(), given.cols());
+    }
     MatL H;      // the matrix the documentation says is used
     ld scale = 1;
     bool any_subdiag = false, negligible = false, exact_zero_sub = false;
@@ -132,6 +141,15 @@ static Input<S> make_input(vf::Draw& d, vf::Case& c, int cls, Index n, int pat)
     if (ign == 2)
         c.cls("garbage_in_ignored_part");
     in.given = given;
+    in.form = (int) d.pick("input_form", 2);
+    if (in.form == 1)
+    {
+        in.parent = Mat::Constant(n + 4, n + 3, (S) 3.25);
+        in.parent.block(1, 2, n, n) = given;
+        c.cls("input/block_of_larger_matrix");
+    }
+    else
+        c.cls("input/plain_matrix");
     return in;
 }
 
@@ -250,7 +268,7 @@ static void single_shift_case(vf::Draw& d, vf::Case& c, int cls, Index n, int pa
     std::unique_ptr<QRClass> b;
     if (d.flag("ctor_computes"))
     {
-        b.reset(new QRClass(in.given, shift));
+        b.reset(new QRClass(in.arg(), shift));
         qrp = b.get();
     }
     else
@@ -279,7 +297,7 @@ static void single_shift_case(vf::Draw& d, vf::Case& c, int cls, Index n, int pa
             a.compute(other, (S) (in.scale / 2));
             c.cls("object_reused_after_other_compute");
         }
-        a.compute(in.given, shift);
+        a.compute(in.arg(), shift);
         qrp = &a;
     }
     QRClass& qr = *qrp;
@@ -347,19 +365,42 @@ static void single_shift_case(vf::Draw& d, vf::Case& c, int cls, Index n, int pa
         cmp(vf::widen_real(y2), Q.transpose() * Y.col(0), "apply_QtY(vector)");
     }
     {
+        // operand form: a plain matrix, or a row block of a taller matrix (an Eigen::Ref with an outer stride larger than its
+        // row count, which the GenericMatrix = Eigen::Ref<Matrix> parameter accepts); the parent's other rows must stay untouched
+        const int oform = (int) d.pick("operand_form", 3);
+        c.cls(oform == 0 ? "operand/plain_matrix" : (oform == 1 ? "operand/top_rows_of_taller_matrix" : "operand/middle_rows_of_taller_matrix"));
+        auto apply_to = [&](Mat& M, const char* what, auto&& f) {
+            if (oform == 0)
+            {
+                f(Eigen::Ref<Mat>(M));
+                return;
+            }
+            const Index top = (oform == 1) ? 0 : 2, bot = 3;
+            const S sentinel = (S) 77.25;
+            Mat P = Mat::Constant(M.rows() + top + bot, M.cols(), sentinel);
+            P.middleRows(top, M.rows()) = M;
+            f(Eigen::Ref<Mat>(P.middleRows(top, M.rows())));
+            bool clean = true;
+            for (Index j = 0; j < P.cols(); j++)
+                for (Index i = 0; i < P.rows(); i++)
+                    if ((i < top || i >= top + M.rows()) && !(P(i, j) == sentinel))
+                        clean = false;
+            VF_CHECK(clean, "apply_wrote_outside_operand", what << " on a row block of a taller matrix changed rows of the parent outside the block");
+            M = P.middleRows(top, M.rows());
+        };
         Mat Ym = vf::Narrow<S>::mat(vf::widen(Y));
         Mat Y1 = Ym;
-        qr.apply_QY(Y1);
+        apply_to(Y1, "apply_QY(matrix)", [&](Eigen::Ref<Mat> R) { qr.apply_QY(R); });
         cmp(vf::widen_real(Y1), Q * Y, "apply_QY(matrix)");
         Mat Y2 = Ym;
-        qr.apply_QtY(Y2);
+        apply_to(Y2, "apply_QtY(matrix)", [&](Eigen::Ref<Mat> R) { qr.apply_QtY(R); });
         cmp(vf::widen_real(Y2), Q.transpose() * Y, "apply_QtY(matrix)");
         Mat Yrm = vf::Narrow<S>::mat(vf::widen(Yr));
         Mat Y3 = Yrm;
-        qr.apply_YQ(Y3);
+        apply_to(Y3, "apply_YQ", [&](Eigen::Ref<Mat> R) { qr.apply_YQ(R); });
         cmp(vf::widen_real(Y3), Yr * Q, "apply_YQ");
         Mat Y4 = Yrm;
-        qr.apply_YQt(Y4);
+        apply_to(Y4, "apply_YQt", [&](Eigen::Ref<Mat> R) { qr.apply_YQt(R); });
         cmp(vf::widen_real(Y4), Yr * Q.transpose(), "apply_YQt");
     }
 }
@@ -419,11 +460,11 @@ static void double_shift_case(vf::Draw& d, vf::Case& c, Index n, int pat)
     Spectra::DoubleShiftQR<S>* qrp = &a;
     if (d.flag("ctor_computes"))
     {
-        b.reset(new Spectra::DoubleShiftQR<S>(in.given, s, t));
+        b.reset(new Spectra::DoubleShiftQR<S>(in.arg(), s, t));
         qrp = b.get();
     }
     else
-        a.compute(in.given, s, t);
+        a.compute(in.arg(), s, t);
     Spectra::DoubleShiftQR<S>& qr = *qrp;
 
     Mat I = Mat::Identity(n, n);
@@ -490,7 +531,25 @@ static void double_shift_case(vf::Draw& d, vf::Case& c, Index n, int pat)
             for (Index i = 0; i < n; i++)
                 Yr(j, i) = (ld) (S) ((ld) (((i * 5 + j * 11 + 1) % 13) - 6) / 4);
         Mat Ym = vf::Narrow<S>::mat(vf::widen(Yr));
-        qr.apply_YQ(Ym);
+        const int oform = (int) d.pick("operand_form", 3);
+        c.cls(oform == 0 ? "operand/plain_matrix" : (oform == 1 ? "operand/top_rows_of_taller_matrix" : "operand/middle_rows_of_taller_matrix"));
+        if (oform == 0)
+            qr.apply_YQ(Ym);
+        else
+        {
+            const Index top = (oform == 1) ? 0 : 2, bot = 3;
+            const S sentinel = (S) 77.25;
+            Mat P = Mat::Constant(nr + top + bot, n, sentinel);
+            P.middleRows(top, nr) = Ym;
+            qr.apply_YQ(P.middleRows(top, nr));
+            bool clean = true;
+            for (Index j = 0; j < n; j++)
+                for (Index i = 0; i < P.rows(); i++)
+                    if ((i < top || i >= top + nr) && !(P(i, j) == sentinel))
+                        clean = false;
+            VF_CHECK(clean, "apply_wrote_outside_operand", "DoubleShiftQR::apply_YQ on a row block of a taller matrix changed rows of the parent outside the block");
+            Ym = P.middleRows(top, nr);
+        }
         ld e2 = vf::maxabs(vf::widen_real(Ym) - Yr * Q);
         VF_CHECK(e2 <= tol * vf::fro(Yr), "apply_YQ", "max error " << vf::num(e2));
     }
